@@ -89,7 +89,11 @@ def term_to_value(t: dict):
     if k == "typevar":
         return V.TypeVarValue(U.TYPEVARS[t["n"]])
     if k == "typeddict":
-        return V.TypedDictValue({e["key"]: V.TypedDictEntry(term_to_value(e["t"]), required=bool(e["req"])) for e in t["items"]})
+        return V.TypedDictValue({e["key"]: V.TypedDictEntry(term_to_value(e["t"]), required=bool(e["req"]),
+                                                             readonly=bool(e.get("ro", False))) for e in t["items"]})
+    if k == "dictinc":
+        return V.DictIncompleteValue(dict, [V.KVPair(term_to_value(p["key"]), term_to_value(p["val"]), bool(p["many"]),
+                                                     bool(p["req"])) for p in t["kvs"]])
     if k == "union":
         if not t["ms"]:
             return V.NO_RETURN_VALUE
@@ -97,10 +101,13 @@ def term_to_value(t: dict):
     raise MachineryError(f"cannot decode term {t}")
 
 
-def value_to_term(v) -> dict:
-    """pyanalyze Value -> term (raises MachineryError for values outside the modelled algebra)."""
+def value_to_term(v, dictinc: bool = False) -> dict:
+    """pyanalyze Value -> term (raises MachineryError for values outside the modelled algebra).
+    dictinc: keep the key-value pairs of a DictIncompleteValue (otherwise it is read as the dict[K, V] it also is)."""
     from pyanalyze import value as V
 
+    if dictinc:
+        return _value_to_term_dictinc(v)
     if isinstance(v, V.AnnotatedValue):
         return value_to_term(v.value)
     if isinstance(v, V.AnyValue):
@@ -122,7 +129,8 @@ def value_to_term(v) -> dict:
     if isinstance(v, V.TypedDictValue):
         if v.extra_keys is not None:
             raise MachineryError("TypedDict with extra keys is outside the modelled algebra")
-        return {"k": "typeddict", "items": [{"key": k, "req": bool(e.required), "t": value_to_term(e.typ)} for k, e in v.items.items()]}
+        return {"k": "typeddict", "c": "dict", "items": [{"key": k, "req": bool(e.required), "ro": bool(e.readonly),
+                                                            "t": value_to_term(e.typ)} for k, e in v.items.items()]}
     if isinstance(v, V.SequenceValue):
         return {
             "k": "seq",
@@ -136,6 +144,29 @@ def value_to_term(v) -> dict:
     if isinstance(v, V.TypedValue):
         return {"k": "typed", "c": U.CLASS_NAME.get(v.typ, "other")}
     raise MachineryError(f"value {v!r} is outside the modelled algebra")
+
+
+def _value_to_term_dictinc(v) -> dict:
+    from pyanalyze import value as V
+
+    rec = _value_to_term_dictinc
+    if isinstance(v, V.DictIncompleteValue) and v.typ is dict:
+        return {"k": "dictinc", "c": "dict", "kvs": [{"key": rec(p.key), "val": rec(p.value), "many": bool(p.is_many),
+                                                      "req": bool(p.is_required)} for p in v.kv_pairs]}
+    if isinstance(v, V.MultiValuedValue):
+        return {"k": "union", "ms": [rec(m) for m in v.vals]}
+    if isinstance(v, V.SubclassValue):
+        return {"k": "subclass", "t": rec(v.typ)}
+    if isinstance(v, V.TypedDictValue):
+        if v.extra_keys is not None:
+            raise MachineryError("TypedDict with extra keys is outside the modelled algebra")
+        return {"k": "typeddict", "c": "dict", "items": [{"key": k, "req": bool(e.required), "ro": bool(e.readonly),
+                                                            "t": rec(e.typ)} for k, e in v.items.items()]}
+    if isinstance(v, V.SequenceValue):
+        return {"k": "seq", "c": U.CLASS_NAME.get(v.typ, "other"), "ms": [{"many": bool(m), "t": rec(t)} for m, t in v.members]}
+    if type(v) is V.GenericValue:
+        return {"k": "generic", "c": U.CLASS_NAME.get(v.typ, "other"), "args": [rec(a) for a in v.args]}
+    return value_to_term(v)
 
 
 # --------------------------------------------------------------------------- type terms -> annotation source
@@ -172,6 +203,8 @@ def term_to_annotation(t: dict) -> str:
         return f"tuple[{', '.join(parts)}]"
     if k == "subclass":
         return f"type[{term_to_annotation(t['t'])}]"
+    if k == "typeddict":
+        return "HU." + U.td_name([(e["key"], bool(e["req"]), bool(e.get("ro", False)), _td_type_name(e["t"])) for e in t["items"]])
     if k == "union":
         if not t["ms"]:
             return "Never"
@@ -179,9 +212,20 @@ def term_to_annotation(t: dict) -> str:
     raise MachineryError(f"cannot render term {t}")
 
 
+def _td_type_name(t: dict) -> str:
+    if t == {"k": "typed", "c": "int"}:
+        return "int"
+    if t == {"k": "typed", "c": "str"}:
+        return "str"
+    if t["k"] == "union" and [m.get("c") or m.get("o", {}).get("c") for m in t["ms"]] == ["int", "NoneType"]:
+        return "optint"
+    raise MachineryError(f"no TypedDict class for entry type {t}")
+
+
 PRELUDE = (
     "from typing import Any, Literal, Union, Optional, NewType\n"
     "from typing_extensions import Never, reveal_type\n"
     "from collections.abc import Sequence, Iterable, Mapping\n"
     "from harness.universe import A, B, Color, N\n"
+    "from harness import universe as HU\n"
 )
